@@ -38,6 +38,20 @@ fn judge_e2(c: &Collector, prop: &str, engine: &str, t: &Trans, local: &mut Loca
                     }
                 }
             } else {
+                // two-step variant: display() interposed before the LAST script operation
+                if t.script.len() >= 1 {
+                    let n = t.script.len();
+                    if let Ok(mut alt) = build(t.columns, t.lines, &t.script[..n - 1]) {
+                        if crate::ops::apply(&mut alt, &Op::Display).is_ok() && crate::ops::apply(&mut alt, &t.script[n - 1]).is_ok() {
+                            let with = run_op(&alt, t.op);
+                            if let (Ok((_, a, _)), Ok((_, b, _))) = (t.outcome, &with) {
+                                if a != b {
+                                    c.violation(mk_violation(prop, engine, t, "impure:later-ops-differ", "the last two operations end in a different state when display() was called before them".into(), serde_json::json!({})));
+                                }
+                            }
+                        }
+                    }
+                }
                 let mut s2 = t.pre_screen.clone();
                 if crate::ops::apply(&mut s2, &Op::Display).is_ok() {
                     let with = run_op(&s2, t.op);
